@@ -183,6 +183,34 @@ fn scenario(id: u64, seed: u64, scratch: &Path, out: &mut dyn Write) -> anyhow::
         drop(f);
         log(out, json!({"ev":"close","who":"F","unlockSeen": true, "lateIo": 0, "ending": 0}))?;
     }
+    // G/H: a handle whose last session is abandoned (warm-ups pending) or finished-and-dropped right before the
+    // handle itself goes away; the directory must open again AT ONCE (nothing the user still holds is alive)
+    if !dir.exists() {
+        drop(try_open(&dir));
+    }
+    for round in 0..3u64 {
+        let g = try_open_cfg(&dir, true, 1 + rng.below(3) as usize);
+        let ok = g.is_ok();
+        log(out, json!({"ev":"open","who":format!("G{round}"),"how":"thread","res": if ok {"Ok"} else {"Err"}, "unchanged": true,
+                        "err": g.as_ref().err().cloned().unwrap_or_default()}))?;
+        if let Ok(g) = g {
+            let s = g.begin_session(SessionParams::default());
+            for j in 0..rng.below(6) {
+                let mut k = [0u8; 32];
+                Rng::new(seed * 31 + round * 7 + j).fill(&mut k);
+                s.warm_up(k);
+            }
+            match rng.below(3) {
+                0 => drop(s),
+                1 => drop(s.finish(vec![])),
+                _ => {
+                    let _ = s.finish(vec![]).and_then(|f| f.commit(&g));
+                }
+            }
+            drop(g);
+            log(out, json!({"ev":"close","who":format!("G{round}"),"unlockSeen": true, "lateIo": 0, "ending": 0}))?;
+        }
+    }
     let _ = std::fs::remove_dir_all(&dir);
     Ok(())
 }
@@ -192,6 +220,38 @@ pub fn main(args: &[String]) -> anyhow::Result<()> {
     anyhow::ensure!(!args.is_empty(), "usage: nvh lock run <n> <seed> <out> <scratch>");
     match args[0].as_str() {
         "child-open" | "child-hold" => child(&args[0], Path::new(&args[1])),
+        "race" => {
+            // nvh lock race <n> <dir> <warm 0|1> <mode>: open, begin a session (warm-ups), end it in <mode>, drop
+            // the handle and reopen at once; prints how often the reopen was refused
+            let n: u64 = args[1].parse()?;
+            let dir = PathBuf::from(&args[2]);
+            let warm = args[3] == "1";
+            let mode = args.get(4).map(|s| s.as_str()).unwrap_or("drop");
+            let _ = std::fs::remove_dir_all(&dir);
+            let mut refused = 0;
+            for i in 0..n {
+                let a = try_open_cfg(&dir, warm, 2).map_err(|e| anyhow::anyhow!(e))?;
+                commit_some(&a, i)?;
+                let s = a.begin_session(SessionParams::default());
+                for j in 0..8u64 {
+                    let mut k = [0u8; 32];
+                    Rng::new(i * 100 + j).fill(&mut k);
+                    s.warm_up(k);
+                }
+                match mode {
+                    "drop" => drop(s),
+                    "finish" => drop(s.finish(vec![])?),
+                    _ => { s.finish(vec![])?.commit(&a)?; }
+                }
+                drop(a);
+                match try_open_cfg(&dir, warm, 2) {
+                    Ok(b) => drop(b),
+                    Err(_) => { refused += 1; std::thread::sleep(std::time::Duration::from_millis(50)); }
+                }
+            }
+            println!("refused {refused} of {n}");
+            Ok(())
+        }
         "run" => {
             let n: u64 = args[1].parse()?;
             let seed: u64 = args[2].parse()?;
